@@ -7,6 +7,7 @@ import world_process  # noqa: F401
 import world_threads  # noqa: F401
 import world_builder  # noqa: F401
 import world_pgp  # noqa: F401
+import world_validators  # noqa: F401
 
 REAL = ["conda_content_trust/*.py (working tree)", "pyca/cryptography + OpenSSL", "json, codecs, io.TextIOWrapper"]
 ASSUME_CRYPTO = ("ed25519 is unforgeable and a random corruption of a signature, key or header does not yield "
@@ -249,3 +250,14 @@ PLANS["C10"] = {
                    "stub": ["securesystemslib.gpg.functions (harness packet parser + subprocess)", "SimGPG", "SimFS", "SimStdout sink"]},
     "must_probe": {"all": ["real_gpg_signature", "bit_sweep_flips", "vgs_valid", "vgs_invalid"]},
 }
+
+PLANS["C13"]["stages"].append({"world": "validators", "runs": {"quick": 1500, "thorough": 100000}})
+PLANS["C13"]["rule"] += ("; validators world: a defensive / confused client calls each of the 24 public checkformat_* / is_* functions on the "
+                         "matching part of a received document, on type-confused variants at every JSON path, on non-matching parts and on "
+                         "junk, and each of the five verifiers with one argument position corrupted")
+
+PLANS["C07"]["stages"].append({"world": "envelope", "runs": {"quick": 700, "thorough": 40000}})
+PLANS["C07"]["stages"].append({"world": "storage", "runs": {"quick": 400, "thorough": 20000}})
+PLANS["C07"]["rule"] += ("; plus the envelope and storage worlds with C07 as target: every library-made signature must verify over the *reference* "
+                         "canonical bytes of the payload presented at signing time (independent RFC 8032), every file the library writes must equal "
+                         "the reference bytes")
